@@ -26,8 +26,11 @@ pub struct ReconnectState {
     /// Current reconnection attempt number (0-indexed)
     attempts: Arc<AtomicU32>,
 
-    /// Last successful connection time (unix timestamp millis)
+    /// Last successful connection time (millis since `origin`, plus one; 0 = never connected)
     last_connected: Arc<AtomicU64>,
+
+    /// Reference instant for `last_connected`
+    origin: Instant,
 }
 
 impl ReconnectState {
@@ -39,6 +42,7 @@ impl ReconnectState {
             ))),
             attempts: Arc::new(AtomicU32::new(0)),
             last_connected: Arc::new(AtomicU64::new(0)),
+            origin: Instant::now(),
         }
     }
 
@@ -72,8 +76,9 @@ impl ReconnectState {
     pub fn mark_connected(&self) {
         self.set_state(ConnectionState::Connected);
         self.reset_attempts();
-        let now = Instant::now();
-        let millis = now.elapsed().as_millis() as u64;
+        // (`Instant::now().elapsed()` is the age of an instant taken just now: always zero,
+        // which is also the "never connected" value)
+        let millis = self.origin.elapsed().as_millis() as u64 + 1;
         self.last_connected.store(millis, Ordering::Release);
     }
 
@@ -93,7 +98,7 @@ impl ReconnectState {
         if last == 0 {
             None
         } else {
-            let now = Instant::now().elapsed().as_millis() as u64;
+            let now = self.origin.elapsed().as_millis() as u64 + 1;
             Some(Duration::from_millis(now.saturating_sub(last)))
         }
     }
